@@ -21,15 +21,22 @@ fn unsupported(what: &'static str) -> ! {
 /// Keys that are small non-negative integers.
 pub trait SlotKey: Copy {
     fn idx(&self) -> usize;
+    fn from_idx(i: usize) -> Self;
 }
 impl SlotKey for crate::Slot {
     fn idx(&self) -> usize {
         self.inner() as usize
     }
+    fn from_idx(i: usize) -> Self {
+        crate::Slot::new(i as u64)
+    }
 }
 
 pub struct BTreeMap<K, V> {
     e: [Option<(K, V)>; NSLOT],
+    /// key of every index, never written after `new`: iteration yields these, so the keys a
+    /// caller sees are constants even when the presence of an entry is symbolic
+    keys: [K; NSLOT],
 }
 
 macro_rules! each {
@@ -49,7 +56,7 @@ impl<K: SlotKey, V> Default for BTreeMap<K, V> {
 
 impl<K: SlotKey, V> BTreeMap<K, V> {
     pub fn new() -> Self {
-        Self { e: [None, None, None, None, None, None, None, None] }
+        Self { e: [None, None, None, None, None, None, None, None], keys: [K::from_idx(0), K::from_idx(1), K::from_idx(2), K::from_idx(3), K::from_idx(4), K::from_idx(5), K::from_idx(6), K::from_idx(7)] }
     }
     fn index_of(k: &K) -> usize {
         let i = k.idx();
@@ -152,14 +159,65 @@ impl<'a, K, V> Iterator for Iter<'a, K, V> {
         let map = self.map;
         each!(i, {
             if i >= self.next {
-                if let Some((k, v)) = &map.e[i] {
+                if let Some((_, v)) = &map.e[i] {
                     self.next = i + 1;
-                    return Some((k, v));
+                    return Some((&map.keys[i], v));
                 }
             }
         });
         self.next = NSLOT;
         None
+    }
+}
+
+/// `map.iter().filter(p).map(f).collect()` evaluated entry by entry with constant indices
+/// (inherent methods take precedence over `Iterator::filter` / `map` / `collect`).  The generic
+/// adapters merge `Option<(&K, &V)>` values over all entries in nested loops; CBMC then carries
+/// pointers with eight possible targets through every later dereference (measured: one
+/// `check_pending_blocks` on a state with one possibly-pending block exhausts the memory cap).
+impl<'a, K: SlotKey, V> Iter<'a, K, V> {
+    pub fn filter<P: FnMut(&(&'a K, &'a V)) -> bool>(self, pred: P) -> Filt<'a, K, V, P> {
+        if self.next != 0 {
+            unsupported("filter on a partly consumed iterator");
+        }
+        Filt { map: self.map, pred }
+    }
+}
+pub struct Filt<'a, K, V, P> {
+    map: &'a BTreeMap<K, V>,
+    pred: P,
+}
+impl<'a, K: SlotKey, V, P: FnMut(&(&'a K, &'a V)) -> bool> Filt<'a, K, V, P> {
+    pub fn map<T, F: FnMut((&'a K, &'a V)) -> T>(self, f: F) -> FiltMap<'a, K, V, P, F> {
+        FiltMap { map: self.map, pred: self.pred, f }
+    }
+}
+pub struct FiltMap<'a, K, V, P, F> {
+    map: &'a BTreeMap<K, V>,
+    pred: P,
+    f: F,
+}
+impl<'a, K: SlotKey, V, P: FnMut(&(&'a K, &'a V)) -> bool, T, F: FnMut((&'a K, &'a V)) -> T> FiltMap<'a, K, V, P, F> {
+    pub fn collect<B: FromIterator<T> + Extend1<T>>(mut self) -> B {
+        let mut out: B = std::iter::empty().collect();
+        let map = self.map;
+        each!(i, {
+            if let Some((_, v)) = &map.e[i] {
+                let item = (&map.keys[i], v);
+                if (self.pred)(&item) {
+                    out.push1((self.f)(item));
+                }
+            }
+        });
+        out
+    }
+}
+pub trait Extend1<T> {
+    fn push1(&mut self, t: T);
+}
+impl<T: SlotKey> Extend1<T> for Vec<T> {
+    fn push1(&mut self, t: T) {
+        self.push(t)
     }
 }
 
@@ -227,37 +285,37 @@ impl<T: PartialEq> FromIterator<T> for BTreeSet<T> {
 }
 
 // ---------------------------------------------------------------------------------------------
-/// Bounded typed vector (what `check_pending_blocks` collects the pending slots into): at most
-/// NVEC elements (a fourth is a hard failure).  The consuming iterator counts its calls
-/// concretely, so a `for` loop over it is unrolled NVEC + 1 times and no further.
-pub const NVEC: usize = 3;
+/// What `check_pending_blocks` collects the slots with a pending block into: an ascending,
+/// duplicate-free list of slots (it is filled from the ordered map's keys), kept as a presence
+/// bitmap.  The `for slot in slots` loop over it is rewritten (spec.py) into a loop over all
+/// slot numbers `0..NSLOT` in ascending order that skips the absent ones - the same iteration,
+/// but with a concrete slot number in every round.
 pub struct Vec<T> {
-    e: [Option<T>; NVEC],
-    len: usize,
+    present: [bool; NSLOT],
+    last: usize,
+    _t: PhantomData<T>,
 }
-impl<T> Vec<T> {
+impl<T: SlotKey> Vec<T> {
     pub fn new() -> Self {
-        Self { e: [None, None, None], len: 0 }
+        Self { present: [false; NSLOT], last: 0, _t: PhantomData }
     }
     pub fn push(&mut self, t: T) {
-        let p = self.len;
-        if p >= NVEC {
-            unsupported("stand-in vector full (more than 3 slots with a pending block)");
+        let i = t.idx();
+        if i >= NSLOT {
+            unsupported("slot outside the stand-in vector's range");
         }
-        self.len = p + 1;
-        if p == 0 {
-            self.e[0] = Some(t);
-        } else if p == 1 {
-            self.e[1] = Some(t);
-        } else {
-            self.e[2] = Some(t);
+        if i < self.last {
+            unsupported("stand-in vector filled out of order");
         }
+        self.last = i + 1;
+        self.present[i] = true;
     }
-    pub fn len(&self) -> usize {
-        self.len
+    pub fn has(&self, t: &T) -> bool {
+        let i = t.idx();
+        i < NSLOT && self.present[i]
     }
 }
-impl<T> FromIterator<T> for Vec<T> {
+impl<T: SlotKey> FromIterator<T> for Vec<T> {
     fn from_iter<I: IntoIterator<Item = T>>(it: I) -> Self {
         let mut v = Self::new();
         for t in it {
@@ -266,34 +324,22 @@ impl<T> FromIterator<T> for Vec<T> {
         v
     }
 }
-pub struct VecIntoIter<T> {
-    v: Vec<T>,
-    calls: usize,
+/// All keys `0..NSLOT`, ascending, with a concrete counter.
+pub struct AllKeys<T> {
+    next: usize,
+    _t: PhantomData<T>,
 }
-impl<T> Iterator for VecIntoIter<T> {
+pub fn all_keys<T: SlotKey>() -> AllKeys<T> {
+    AllKeys { next: 0, _t: PhantomData }
+}
+impl<T: SlotKey> Iterator for AllKeys<T> {
     type Item = T;
     fn next(&mut self) -> Option<T> {
-        let p = self.calls;
-        if p >= NVEC {
+        let i = self.next;
+        if i >= NSLOT {
             return None;
         }
-        self.calls = p + 1;
-        if p >= self.v.len {
-            return None;
-        }
-        if p == 0 {
-            self.v.e[0].take()
-        } else if p == 1 {
-            self.v.e[1].take()
-        } else {
-            self.v.e[2].take()
-        }
-    }
-}
-impl<T> IntoIterator for Vec<T> {
-    type Item = T;
-    type IntoIter = VecIntoIter<T>;
-    fn into_iter(self) -> VecIntoIter<T> {
-        VecIntoIter { v: self, calls: 0 }
+        self.next = i + 1;
+        Some(T::from_idx(i))
     }
 }
